@@ -439,7 +439,7 @@ impl Check for RequestDelivery {
 }
 
 pub fn run(ctx: &mut Ctx) {
-    ctx.rule = "request_delivery: 2..3 exchanges with 3..6 instruments; each exchange's execution link Healthy (60%) / Closed (receiver dropped) / Missing; history vec(step,1..25|50) of engine events (market & account items, reconnect notices, trading-state updates, the four commands incl. requests addressed to an exchange index beyond the link table) each with the cancels/opens the scripted strategy returns if asked (25% marked for refusal by the scripted risk manager, 8% unknown exchange index). In 30% of the cases the strategy's on-disconnect hook stops algorithmic trading (no generation from that very event on), in 40% its close-positions reaction also cancels the resting orders in scope. A history stops at its first fatal tick, as a real run does. non-trivial = >= 1 failed delivery or refusal AND >= 1 successful delivery; distinct by hash of the case.".into();
+    ctx.rule = "request_delivery: 2..3 exchanges with 3..6 instruments; each exchange's execution link Healthy (60%) / Closed (receiver dropped) / Missing; history vec(step,1..25|50) of engine events (market & account items, reconnect notices, trading-state updates, the four commands incl. requests addressed to an exchange index beyond the link table) each with the cancels/opens the scripted strategy returns if asked (25% marked for refusal by the scripted risk manager, 8% unknown exchange index). In 30% of the cases the strategy's on-disconnect hook stops algorithmic trading (no generation from that very event on), in 40% its close-positions reaction also cancels the resting orders in scope. A history stops at its first fatal tick, as a real run does. non-trivial = >= 1 failed delivery or refusal AND >= 1 successful delivery; distinct by hash of the case. link_routing (shared with C04): 2..6|10 spot instruments over 2..4 exchanges, a generated subset of them with a mock execution link, assembled by ExecutionBuilder on a paused runtime; requests sent through execution_txs.find(exchange index) must be answered with their own keys and a data-only exchange index must resolve to no link.".into();
     ctx.assumptions = vec![
         "a request names an existing instrument and that instrument's exchange, or an exchange index beyond the link table".into(),
         "several requests for the same (instrument, client order id) inside one tick: the resulting in-flight mark is not checked (order of marks is not stated)".into(),
@@ -447,8 +447,14 @@ pub fn run(ctx: &mut Ctx) {
     ];
     ctx.run_regressions::<RequestDelivery>();
     ctx.run::<RequestDelivery>(ctx.tier.pick(60_000, 800_000));
+    // the same delivery rule on links as a system assembles them (`ExecutionBuilder::build`, traded and
+    // data-only exchanges in any index order): a request is delivered to its own exchange's link and
+    // answered with its own key, an exchange without a link resolves to no link (C04's `link_routing`
+    // check, run here for the "failed => not delivered" half of C03)
+    ctx.require_class::<super::c04::LinkRouting>("data_only_exchange_before_traded_one");
+    ctx.run::<super::c04::LinkRouting>(ctx.tier.pick(4_000, 60_000));
 }
 
 pub fn replay(ctx: &mut Ctx, doc: &Value) -> bool {
-    ctx.replay::<RequestDelivery>(doc)
+    ctx.replay::<RequestDelivery>(doc) || ctx.replay::<super::c04::LinkRouting>(doc)
 }
